@@ -776,7 +776,7 @@ def main(argv):
         doc = json.load(open(ck.replay))["replay"]
         if doc.get("family") == "purity" or "ops" not in doc:
             print("replay (purity/proof family): re-running the purity family"); fails = purity_family(ck, classes, pool)
-            print("failures:", [f[1] for f in fails][:5]); return 0
+            print("failures:", [f[1] for f in fails][:5]); __import__("shutil").rmtree(ck.scratch, ignore_errors=True); return 0
         ops = [tuple(o) for o in doc["ops"]]
         psi0 = np.array([complex(a, b) for a, b in doc["psi0"]], dtype=complex)
         case, obj, G = run_history(ck, classes, bks, pool, "replay", doc["class"], doc["n"], doc["aux"], ops, psi0)
@@ -784,7 +784,7 @@ def main(argv):
         print(" codes:", case.codes, "\n oracle:", case.oracle_fail, "\n notes:", case.notes[:3])
         if classes[doc["class"]][0] != "g":
             print(" erased-replay oracle:", erased_replay_oracle(classes, bks, pool, doc["class"], doc["n"], doc["aux"], ops, psi0, None))
-        return 0
+        __import__("shutil").rmtree(ck.scratch, ignore_errors=True); return 0
 
     bad = ck.hygiene()
     if bad:
